@@ -800,13 +800,18 @@ def rear (u : Nat) (fn : String) (moot frame : String) (s : St) : Except Err St 
           | .error e => .error e
           | .ok s => resolveAll worklistFuel s
 
+/-- `aux.insular and aux.razeable` -/
+def isRazeable (s : St) (a : Nat) : Bool :=
+  match s.get? a with
+  | some o => o.insular && o.razeable
+  | none => false
+
 /-- which auxiliaries of a frame `Razer.action` selects -/
 def razeables (s : St) (who : Who) (auxes : List Nat) : List Nat :=
-  let ok := fun a => match s.get? a with | some o => o.insular && o.razeable | none => false
   match who with
-  | .all => auxes.filter ok
-  | .first => (auxes.find? ok).toList
-  | .last => (auxes.reverse.find? ok).toList
+  | .all => auxes.filter (isRazeable s)
+  | .first => (auxes.find? (isRazeable s)).toList
+  | .last => (auxes.reverse.find? (isRazeable s)).toList
 
 /-- `frame.auxes.remove(aux)` and `del framer.auxes[aux.tag]` (if present) for frame `fn` of framer `u` -/
 def dropAux (u : Nat) (fn : String) (a : Nat) (tag : String) (s : St) : St :=
